@@ -76,6 +76,10 @@ SETTINGS = [
                   '1/4+Z, 1/2+Y, 3/4-X']),
 ]
 
+# U22 U33 U23 U13 U12 whose float sum is exactly 0.0
+CANCELLING = [(0.01, 0.01, -0.01, -0.005, -0.005), (0.01, 0.01, -0.01, -0.02, 0.01), (0.03, 0.05, -0.04, -0.02, -0.02),
+              (0.025, 0.025, -0.0125, -0.0125, -0.025)]
+
 TRANSLATIONS = [F(0), F(1, 2), F(1, 3), F(2, 3), F(1, 4), F(3, 4), F(1, 6), F(5, 6)]
 ROWS = [(1, 0, 0), (-1, 0, 0), (0, 1, 0), (0, -1, 0), (0, 0, 1), (0, 0, -1), (1, -1, 0), (-1, 1, 0)]
 
@@ -287,7 +291,10 @@ def make_case(rng, setting=None, flags=None):
             if m == 1:
                 code = 11.0
         r = rng.random()
-        if r < 0.45:
+        if r < 0.04:
+            # U22 .. U12 that add up to exactly 0.0 in doubles: still an anisotropic atom
+            u = [round(rng.uniform(0.02, 0.09), 5)] + list(rng.choice(CANCELLING))
+        elif r < 0.45:
             u = [round(rng.uniform(0.01, 0.09), 5)] + [round(rng.uniform(0.01, 0.09), 5) for _ in range(2)] + \
                 [round(rng.uniform(-0.02, 0.02), 5) or 0.00123 for _ in range(3)]
         elif r < 0.6:
@@ -735,17 +742,20 @@ def _evaluate(ctx, cases):
                 ctx.fail('C18|atoms|disorder_group', f'{e["label"]}: disorder group {r[col["_atom_site_disorder_group"]]!r}, PART is {e["part"]}', pay)
             elif dg != mr['part']:
                 ctx.fail('C18|atoms|disorder_group|model', f'{e["label"]}: disorder group {dg}, Lean model {mr["part"]}', pay, kind='correspondence')
+            cancels = bool(e['u']) and sum(e['u'][1:]) == 0
+            if cancels:
+                ctx.dist['atom:Uij-cancel'] += 1
             if '_atom_site_adp_type' in col:
                 t = r[col['_atom_site_adp_type']]
                 if (t == 'Uani') != bool(e['u']):
-                    ctx.fail('C18|atoms|adp_type', f'{e["label"]}: adp type {t!r}, the atom has {"six" if e["u"] else "one"} U value(s)', pay)
+                    ctx.fail('C18|atoms|adp_type' + ('|Uij-cancel' if cancels else ''), f'{e["label"]}: adp type {t!r}, the atom has {"six" if e["u"] else "one"} U value(s)', pay)
                 elif (t == 'Uani') != mr['aniso']:
                     ctx.fail('C18|atoms|adp_type|model', f'{e["label"]}: adp type {t!r}, Lean model aniso={mr["aniso"]}', pay, kind='correspondence')
             if e['u']:
                 gu = adp.get(e['label'])
                 pay['actual_adp'] = gu
                 if gu is None:
-                    ctx.fail('C18|adp|missing', f'{e["label"]} is anisotropic but has no row in the ADP loop', pay)
+                    ctx.fail('C18|adp|missing' + ('|Uij-cancel' if cancels else ''), f'{e["label"]} is anisotropic but has no row in the ADP loop', pay)
                 else:
                     if any(not num_eq(g, F(str(w)), 1e-9) for g, w in zip(gu, e['u'])):
                         ctx.fail('C18|adp|values', f'{e["label"]}: Uij {gu}, the file has {e["u"]}', pay)
@@ -799,7 +809,7 @@ def run(ctx):
                 'SYMM operators, an absent optional instruction or atoms')
     ctx.assumptions = ['translations of the model are within 1e-9 of a multiple of 1/48 (checked per case)',
                        'SYMM translations are written as fractions (decimals only for halves and quarters)',
-                       'atom labels unique; UNIT/Z below 1000 per element',
+                       'atom labels unique',
                        'temperature: TEMP + 273.15 > 0.0005 K (hypothesis AboveZeroK of temp_spec)']
     check_repr_table(ctx)
     cases = []
@@ -809,7 +819,7 @@ def run(ctx):
     for k in ['zerr', 'temp', 'size', 'acta', 'wght', 'rems', 'titl']:
         cases.append(make_case(ctx.rng, setting=ctx.rng.choice(SETTINGS), flags={k: False}))
     cases.append(make_case(ctx.rng, flags=dict(zerr=True, temp=False, size=False, acta=False, wght=False, rems=False, titl=True)))
-    n = ctx.budget(250, 6000)
+    n = ctx.budget(1500, 25000)
     for _ in range(n):
         cases.append(make_case(ctx.rng))
     if ctx.tier == 'thorough' or ctx.escalated:
